@@ -57,6 +57,14 @@ def _Q(W, c, gamma, n):
     return float(((W - gamma * np.outer(ko, ki) / s) * same).sum() / s)
 
 
+def _Qrawg(W, c, gamma, sd, n):
+    W = _mat(W)[:n, :n]
+    ko, ki = W.sum(1), W.sum(0)
+    c = np.asarray(c)[:n]
+    same = c[:, None] == c[None, :]
+    return float(((W - gamma * np.outer(ko, ki) / sd) * same).sum())
+
+
 def _sdist(G, x, y, n=None):
     A = (np.asarray(G) != 0)
     n = len(A)
@@ -83,7 +91,7 @@ def _walk(G, x, y, m):
 
 
 SPEC = {
-    'sdist': _sdist, 'walk': _walk,
+    'sdist': _sdist, 'walk': _walk, 'Qrawg': _Qrawg, 'umul': (lambda a, b: a * b), 'udiv': (lambda a, b: a / b),
     'rcnt': lambda M, x, n: int(np.count_nonzero(_mat(M)[x, :n])), 'ccnt': lambda M, y, n: int(np.count_nonzero(_mat(M)[:n, y])),
     'rsum': lambda M, x, n: float(_mat(M)[x, :n].sum()), 'csum': lambda M, y, n: float(_mat(M)[:n, y].sum()),
     'rpos': lambda M, x, n: int((_mat(M)[x, :n] > 0).sum()), 'rneg': lambda M, x, n: int((_mat(M)[x, :n] < 0).sum()),
@@ -257,6 +265,16 @@ class Eval:
                 finally:
                     self.e.bound = saved
             return np.array(out)
+        if f in ('unique_count', 'unique_witness'):
+            # concrete reading for contracts whose LAST np.unique call produced the returned labels (inverse + 1): the number of
+            # distinct labels / the first position carrying label t + 1
+            r = self.e.result
+            lab = np.asarray(r[0] if isinstance(r, tuple) else r)
+            if f == 'unique_count':
+                return int(len(np.unique(lab)))
+            t = int(self.ev(n.args[0]))
+            pos = np.flatnonzero(lab == t + 1)
+            return int(pos[0]) if len(pos) else -1
         if f == 'lam2':
             lam = n.args[0]
             k = int(self.ev(n.args[1]))
